@@ -146,8 +146,7 @@ def judge(arrays, loaded, detailed, only_real, sdata, version=2):
                 pa.name, lconsts, consts)))
         lout = set(lp.output_property_arrays)
         allp = set(meta)
-        norm = lambda o: allp if not o else set(o)   # empty list == all
-        if norm(lout) != norm(set(out)):
+        if lout != set(out):
             probs.append(('output-list:%s' % ('detailed' if detailed
                                               else 'brief'),
                           '%s: loaded output arrays %r, dumped %r' % (
